@@ -698,6 +698,9 @@ def registry_rule(prog, rep):
             if k.arg and isinstance(k.value, ast.Name) and k.value.id in own:
                 landed[k.value.id] = k.arg
         wrong = {p: q for p, q in landed.items() if p in cal.params and q != p}
+        # the value the query wrote reaches the transform as it is: not wrapped in a conversion (set / frozenset / tuple / str ...)
+        conv = [a for a in list(c.args) + [k_.value for k_ in c.keywords] if isinstance(a, ast.Call) and isinstance(a.func, ast.Name) and a.func.id in ("set", "frozenset", "tuple", "list", "dict", "str", "int", "float", "bool", "sorted", "reversed", "iter") and any(isinstance(x, ast.Name) and x.id in own for x in ast.walk(a))]
+        rep.check(not conv, "REGISTRY", fi.short, f"arguments of {cal.short} passed as written", "no conversion", (f"the built-in hands `{norm(conv[0])[:50]}` to {cal.short} instead of the argument's value: the conversion fails or changes the value for arguments the language allows (a list or dict inside the list is unhashable: TypeError, which the interpreter then reports as a wrong number of arguments; a generator is consumed once)" if conv else ""), fi.loc(c))
         rep.check(not wrong, "REGISTRY", fi.short, f"arguments of {cal.short}", f"{landed}", f"the built-in hands its argument(s) to the wrong parameter of {cal.short}: {wrong} (same-named parameters must receive the same-named arguments)", fi.loc(c))
         unused = [p for p in own if not any(isinstance(x, ast.Name) and x.id == p for x in ast.walk(fi.node) if not isinstance(x, ast.arg))]
         rep.check(not unused, "REGISTRY", fi.short, "all arguments used", "", f"argument(s) {unused} of the built-in are ignored", fi.loc())
@@ -820,15 +823,57 @@ def text_level_rules(prog, rep):
             if written:
                 n += 1
                 rep.violation("TEXT", fi.short, f"global {', '.join(written)}", f"{fi.short} keeps state in the module-level variable(s) {written}: what one query (or one failed parse: an exception between the update and its undo leaves it changed) does shows in all later queries of the process", fi.loc(g_))
+    # (e) who writes variables: a variable holds its most recent ASSIGNMENT, so only the assignment machinery stores into the
+    # namespace (query(): the three reserved names; interpret(): the assigned variable; QVariable.interpret: writes back the
+    # value it just read).  A built-in that stores into the namespace changes what later statements read
+    NS_WRITERS = {"query", "interpret", "QVariable.interpret", "create_namespace"}
+    for fi in prog.funcs.values():
+        if not fi.mod.name.startswith("aw_query") or fi.short in NS_WRITERS:
+            continue
+        ns_names = {p_ for p_ in fi.params if p_ == "namespace"} | {a_.arg for a_ in fi.node.args.args if a_.annotation is not None and norm(a_.annotation) == "TNamespace"}
+        if not ns_names:
+            continue
+        for x in walk_with_nested_exprs(fi.node):
+            w = None
+            if isinstance(x, (ast.Assign, ast.AugAssign)):
+                for t_ in (x.targets if isinstance(x, ast.Assign) else [x.target]):
+                    if isinstance(t_, ast.Subscript) and isinstance(t_.value, ast.Name) and t_.value.id in ns_names:
+                        w = x
+            if isinstance(x, ast.Call) and isinstance(x.func, ast.Attribute) and isinstance(x.func.value, ast.Name) and x.func.value.id in ns_names and x.func.attr in ("update", "setdefault", "pop", "clear", "popitem", "__setitem__"):
+                w = x
+            if isinstance(x, ast.Delete) and any(isinstance(t_, ast.Subscript) and isinstance(t_.value, ast.Name) and t_.value.id in ns_names for t_ in x.targets):
+                w = x
+            if w is not None:
+                n += 1
+                rep.violation("TEXT", fi.short, f"`{norm(w)[:50]}`", f"{fi.short} stores into the query's namespace (`{norm(w)[:70]}`): a variable evaluates to its most recent assignment, and this is not an assignment of the program: a later statement that reads the name gets what the built-in left there (another type, another value)", fi.loc(w))
+    # (f) the statement-level functions reject a statement only by what the scanners found, not by a look-up in some other
+    # vocabulary (Python's keywords, a regular expression over the name ...)
+    for fi in prog.funcs.values():
+        if fi.mod.name != "aw_query.query2" or fi.cls is not None:
+            continue
+        for r in [x for x in walk_own(fi.node) if isinstance(x, ast.Raise)]:
+            p_ = parent(r)
+            while p_ is not None and not isinstance(p_, ast.If):
+                p_ = parent(p_)
+            if p_ is None:
+                continue
+            ext = [c_ for c_ in ast.walk(p_.test) if isinstance(c_, ast.Call) and isinstance(c_.func, ast.Attribute) and isinstance(c_.func.value, ast.Name) and fi.mod.imports.get(c_.func.value.id) is not None and fi.mod.imports[c_.func.value.id][1] is None and fi.mod.imports[c_.func.value.id][0] in ("keyword", "re", "string", "unicodedata", "builtins")]
+            if ext:
+                n += 1
+                rep.violation("TEXT", fi.short, f"raise under `{norm(p_.test)[:50]}`", f"the statement is rejected on the strength of `{norm(ext[0])[:50]}`, a vocabulary that is not the query language's: names the language allows (`in`, `as`, `is`, `or` are ordinary identifiers to the scanners) stop being assignable", fi.loc(r))
     # (d) rewriting program text
     REWR = ("sub", "subn", "replace", "translate", "lower", "upper", "casefold", "swapcase", "title", "capitalize", "expandtabs")
     for fi in prog.funcs.values():
-        if fi.mod.name != "aw_query.query2" or (fi.cls is not None and fi.cls.name == "QString"):
+        if fi.mod.name != "aw_query.query2":
             continue
+        in_qstring = fi.cls is not None and fi.cls.name == "QString"
         for c in [x for x in walk_with_nested_exprs(fi.node) if isinstance(x, ast.Call)]:
             f = c.func
+            if in_qstring and not (isinstance(f, ast.Attribute) and f.attr in ("encode", "decode")):
+                continue
             hit = isinstance(f, ast.Attribute) and f.attr in REWR and (c.args or f.attr not in ("replace",)) and not (f.attr == "replace" and not c.args)
             hit = hit or norm(f) in ("re.sub", "re.subn", "re.split")
+            hit = hit or (isinstance(f, ast.Attribute) and f.attr in ("encode", "decode"))
             # un-escaping a scanned string token (`tok.replace("\\" + q, q)`) is the string scanner's own work, wherever a helper put it
             if hit and isinstance(f, ast.Attribute) and f.attr == "replace" and c.args and ((isinstance(c.args[0], ast.BinOp) and isinstance(c.args[0].left, ast.Constant) and c.args[0].left.value == "\\") or (isinstance(c.args[0], ast.Constant) and isinstance(c.args[0].value, str) and c.args[0].value.startswith("\\"))):
                 hit = False
